@@ -106,10 +106,10 @@ public:
                 case '\t': out += "\\t"; break;
                 case '\r': out += "\\r"; break;
                 default:
-                    if ((unsigned char) c < 0x20)
+                    if ((unsigned char) c < 0x20 || (unsigned char) c >= 0x7f)
                     {
                         char buf[8];
-                        std::snprintf(buf, sizeof buf, "\\u%04x", c);
+                        std::snprintf(buf, sizeof buf, "\\u%04x", (unsigned) (unsigned char) c);
                         out += buf;
                     }
                     else
